@@ -203,7 +203,7 @@ func (c *nilCtx) globalNonNil(g *ssa.Global) bool {
 				return
 			}
 			stores++
-			if fn.Name() != "init" || !c.nonNil(st.Val, st, 0) {
+			if fname(fn) != "init" || !c.nonNil(st.Val, st, 0) {
 				ok = false
 			}
 		})
@@ -703,7 +703,7 @@ func ruleNIL3(w *World) []Ob {
 				if b, isConst := constBool(x.Val); isConst && !b {
 					return
 				}
-				if a, ok := fa.X.(*ssa.Alloc); ok && a.Parent() == fn && fn.Name() == "newConfig" {
+				if a, ok := fa.X.(*ssa.Alloc); ok && a.Parent() == fn && fname(fn) == "newConfig" {
 					return
 				}
 				nMassive++
@@ -743,7 +743,7 @@ func ruleNIL3(w *World) []Ob {
 				nIter++
 				construct := "tree.walkIterProgrammably via " + describeValue(com.Value)
 				mk, ok := resolve(com.Value).(*ssa.Call)
-				if !ok || mk.Common().StaticCallee() == nil || mk.Common().StaticCallee().Name() != "initializeTree" {
+				if !ok || mk.Common().StaticCallee() == nil || fname(mk.Common().StaticCallee()) != "initializeTree" {
 					l.undecided(fid, construct, p.InstrPos(x), "the tree value does not come from initializeTree(cfg) directly", "iter")
 					return
 				}
